@@ -396,6 +396,30 @@ def run(res, tier):
     sm_state.ranges_reset_rule(res, fx)
     first_position_rule(res, fx)
     per_iteration_rule(res, fx)
+    # ---- NULL-SEGMENT: in SegmentedStringMatcher a NULL sub-matcher stands for "*": MatchAux accepts anything for it, so IsPatternUnique() must answer false for it
+    res.rule('NULL-SEGMENT', 'SegmentedStringMatcher::IsPatternUnique: from the edge on which a segment\'s sub-matcher is found NULL (the match-anything segment) no `return true` can be reached', floor=1)
+    fu = [g for g in fx.funcs.values() if g.full and g.q == 'muscle::SegmentedStringMatcher::IsPatternUnique']
+    if not fu:
+        raise AnalysisBroken('NULL-SEGMENT: SegmentedStringMatcher::IsPatternUnique has no analysed body')
+    fu = fu[0]
+    smd = set(v['d'] for v in fu.walk() if v['k'] == 'VarDecl' and re.search(r'StringMatcher \*$', v.type().strip()))
+    rt = set(P.pos_of(fu, r) for r in fu.walk() if r['k'] == 'ReturnStmt' and r['ch'] and A.strip_casts(r['ch'][0]).get('v') == 1 and P.pos_of(fu, r))
+    n_ns, bad_ns = 0, None
+    for blk in fu.blocks.values():
+        if blk.cond is None or blk.cond not in fu.nodes or len(blk.succ) != 2:
+            continue
+        cn, pol = P.strip_not(fu.nodes[blk.cond])
+        if cn['k'] == 'DeclRefExpr' and cn.get('d') in smd:
+            n_ns += 1
+            null_succ = blk.succ[1 if pol else 0]
+            if null_succ is not None and null_succ >= 0 and rt and C.can_reach(fu, (null_succ, -1), rt):
+                bad_ns = bad_ns or fu.nodes[blk.cond]
+    if n_ns < 1 or not rt:
+        raise AnalysisBroken('NULL-SEGMENT: the NULL test of the sub-matcher / the `return true` of IsPatternUnique was not found')
+    res.ob('NULL-SEGMENT', fu.where(bad_ns) if bad_ns is not None else fu.where(), 'IsPatternUnique answers false for a pattern with a match-anything (NULL) segment', bad_ns is None, function=fu.q,
+           key='NULL-SEGMENT|%s' % fu.q,
+           message='SegmentedStringMatcher::IsPatternUnique() can return true although a segment\'s sub-matcher is NULL: a segment that is exactly `*` is stored as NULL and matches anything, so '
+                   '`foo/*` reports "unique" while it matches many strings — the "can this pattern match more than one string" test answers no where two different strings match')
     res.explanation = ('Static decision of two table-agreement clauses of C15: the special-character tables are extracted from the resolved AST (comparisons against str[0], the cases of the translation switch and '
                        'whether they add an escaping backslash, the cases of IsRegexToken and what each returns) and compared with each other and with the fixed POSIX-ERE metacharacter set; the escape branch of the '
                        'translator is required to drop the backslash for the characters where GNU regex defines a backslash operator. Matching semantics in general are not decided.')
